@@ -177,3 +177,17 @@ Lemma archives_index_as_modelled :
   read_dir_wf zip_read_dir = true /\ read_dir_wf tar_read_dir = true /\
   exists_wf zip_exists = true /\ exists_wf tar_exists = true.
 Proof. vm_compute. repeat split. Qed.
+
+(* the parent of a directory id, as register_dir uses it: none for the root, "" for a top-level id,
+   everything before the last dot otherwise (Ref/Tree.parent: removelast) *)
+Definition parent_id_wf (f : fn_def) : bool :=
+  match fn_body f with
+  | [ELetS (PIdent "id" None) (Some (EMethod (EPath ["self"]) "id" [])) None;
+     EIf (EMethod (EPath ["id"]) "is_empty" []) [EPath ["None"]]
+       (Some (EBlock [EMatch (EMethod (EPath ["id"]) "rfind" [ELit (LChar ".")])
+          [(PTupleStruct ["Some"] [PIdent n None], None, ECall (EPath ["Some"]) [ERef (EIndex (EPath ["id"]) (ERange None (Some (EPath [n']))))]);
+           (PIdent "None" None, None, ECall (EPath ["Some"]) [ELit (LStr "")])]]))] => String.eqb n n'
+  | _ => false
+  end.
+Lemma parent_id_as_modelled : parent_id_wf DirEntry_parent_id = true.
+Proof. vm_compute. reflexivity. Qed.
